@@ -109,6 +109,17 @@ class LegacySum(p.Sum):
 
 
 @expr_dataclass()
+class UFieldless(Expression):
+    """a decorated user base class without fields ..."""
+
+
+@expr_dataclass()
+class UFieldlessChild(UFieldless):
+    """... and a subclass of it that has one"""
+    payload: object
+
+
+@expr_dataclass()
 class TaggedCSE(p.CommonSubexpression):
     """a common-subexpression subclass with an extra constructor property, forwarded through
     identity-style mappers by the documented get_extra_properties() hook"""
